@@ -133,7 +133,7 @@ def r_fallbacks(chk, P, tier):
 
 
 def r_dispatch(chk, P, tier):
-    chk.rule("ORDER.posix_tz", "from_posix_tz: empty -> UTC, `localtime` -> /etc/localtime, ':'-prefix stripped, file if it exists, otherwise a TZ rule", floor=3)
+    chk.rule("ORDER.posix_tz", "from_posix_tz: empty -> UTC, `localtime` -> /etc/localtime, ':'-prefix stripped, file if it exists, otherwise a TZ rule", floor=4)
     fn = T + "from_posix_tz"
     strs = set()
     from core import operands_of_block
@@ -173,6 +173,19 @@ def r_dispatch(chk, P, tier):
                 whole = a == ("arg", 1) or unref(a) == ("arg", 1)
                 chk.expect(not whole, "colon branch #%d" % n, "with a leading ':' from_posix_tz hands the whole string (colon included) to find_tz_file", loc=P.loc(fn))
     chk.expect(n >= 1, "colon branch found", "no path of from_posix_tz tests for ':' and then calls find_tz_file (anchor lost)")
+    # "file if it exists, otherwise a TZ rule": the string is read as a POSIX rule only after the file lookup was tried for it - on every path
+    rule_fn = "offset::local::tz_info::rule::TransitionRule::from_tz_string"
+    nr = bad_ = 0
+    for p in Sym(P, fn).paths():
+        names = [c[1] if isinstance(c[1], str) else "" for c in p.calls]
+        if rule_fn in names:
+            nr += 1
+            i = names.index(rule_fn)
+            if not any(x.endswith("timezone::find_tz_file") for x in names[:i]):
+                bad_ += 1
+    if not nr:
+        raise AnchorLost("from_posix_tz: no path parses a TZ rule")
+    chk.expect(bad_ == 0, "file lookup before rule", "from_posix_tz parses the string as a POSIX rule on %d of %d paths without having tried it as a zone file name first" % (bad_, nr), loc=P.loc(fn))
     loc = [p.ret for p in Sym(P, T + "local").paths() if p.end[0] == "return"]
     ok = any(any(is_call(x, name=fn) for x in walk_terms(r)) for r in loc) and any(any(is_call(x, name=fn) and const_of(unref(x[2][0])) == "localtime" for x in walk_terms(r)) for r in loc)
     chk.expect(ok, "TimeZone::local", "TimeZone::local(None) does not fall back to from_posix_tz(\"localtime\")")
